@@ -71,6 +71,16 @@ def activities(tr: Dict[str, Any]):
     return [e for e in raw.model(tr["traceEvents"]) if e.stream != -1]
 
 
+def kept_activities(case: Dict[str, Any]) -> Dict[int, list]:
+    """rank -> device activities that survive loading (the documented trimming of the trailing profiler step, C12; a no-op
+    for traces with fewer than two steps such as G-int's)."""
+    from hv.ref import load as refload
+
+    models = {tr["distributedInfo"]["rank"]: raw.model(tr["traceEvents"]) for tr in case["files"].values()}
+    ld = refload.loaded(models, False)
+    return {r: [e for e in ld.kept[r] if e.stream != -1] for r in models}
+
+
 def tie_stats(acts, res: core.CaseResult) -> bool:  # noqa: ANN001
     sp = [(e.ts, e.end) for e in acts]
     touching = any(a[1] == b[0] or b[1] == a[0] for i, a in enumerate(sp) for b in sp[i + 1:])
@@ -86,7 +96,7 @@ def tie_stats(acts, res: core.CaseResult) -> bool:  # noqa: ANN001
 
 def run_case(case: Dict[str, Any], ctx: Any) -> core.CaseResult:
     res = core.CaseResult()
-    per_rank = {tr["distributedInfo"]["rank"]: activities(tr) for tr in case["files"].values()}
+    per_rank = kept_activities(case)
     for r, acts in per_rank.items():
         if not acts or max(e.end for e in acts) == min(e.ts for e in acts):
             res.discarded, res.discard_reason = True, "kernel_time == 0 on a rank"
